@@ -59,6 +59,19 @@ def one_compare(e, fn):
     return e.left, CMP[type(e.ops[0])], e.comparators[0]
 
 
+FLIP = {"CLt": "CGt", "CLe": "CGe", "CGt": "CLt", "CGe": "CLe", "CEq": "CEq", "CNe": "CNe"}
+
+
+def oriented(e, fn, a, b):
+    """the comparison `a <cmp> b` denoted by e, written either way round"""
+    left, op, right = one_compare(e, fn)
+    if up(left) == a and up(right) == b:
+        return op
+    if up(left) == b and up(right) == a:
+        return FLIP[op]
+    fail(fn, "the test does not compare %s with %s: %s" % (a, b, up(e)))
+
+
 def fudge(fn):
     """if use_stix21: if new <cmp> old: new = old + td  else: [one_ms = td;] if new - old <cmp> td: new = old + td; return new"""
     name = "_fudge_modified"
@@ -90,9 +103,7 @@ def fudge(fn):
             if not (isinstance(left, ast.BinOp) and isinstance(left.op, ast.Sub) and up(left.left) == new and up(left.right) == old):
                 fail(name, "the test is not `%s - %s <cmp> <timedelta>`: %s" % (new, old, up(stmts[0].test)))
             return op, timedelta_us(right, env, name), push
-        if not (up(left) == new and up(right) == old):
-            fail(name, "the test is not `%s <cmp> %s`: %s" % (new, old, up(stmts[0].test)))
-        return op, None, push
+        return oriented(stmts[0].test, name, new, old), None, push
 
     c21, _, p21 = branch(b[0].body, False)
     c20, t20, p20 = branch(b[0].orelse, True)
@@ -164,14 +175,19 @@ def new_version(fn):
         fail(name, "precision_constraint is not `<c> if <test> else <c>`")
     out["constraint_21"], out["constraint_test"], out["constraint_else"] = v.body.value, up(v.test), v.orelse.value
 
+    constraints = []
+
     def parse_call(e, what):
         if not (isinstance(e, ast.Call) and up(e.func) == "parse_into_datetime" and len(e.args) == 1):
             fail(name, "%s is not parse_into_datetime(<value>, precision=, precision_constraint=)" % what)
         kw = {x.arg: x.value for x in e.keywords}
-        if set(kw) != {"precision", "precision_constraint"} or not isinstance(kw["precision"], ast.Constant) \
-                or up(kw["precision_constraint"]) != "precision_constraint":
+        if not set(kw) <= {"precision", "precision_constraint"}:
             fail(name, "unrecognised keyword arguments of %s: %s" % (what, up(e)))
-        return e.args[0], kw["precision"].value
+        prec = kw.get("precision")
+        if prec is not None and not (isinstance(prec, ast.Constant) and isinstance(prec.value, str)):
+            fail(name, "precision of %s is not a string literal: %s" % (what, up(e)))
+        constraints.append(up(kw["precision_constraint"]) if "precision_constraint" in kw else "<default>")
+        return e.args[0], (prec.value if prec is not None else "<default>")
 
     # old_modified
     src = index(lambda s: isinstance(s, ast.Assign) and up(s.targets[0]) == "old_modified" and isinstance(s.value, ast.BoolOp), "old_modified = ... or ...")
@@ -195,12 +211,10 @@ def new_version(fn):
     arg, prec_new = parse_call(yes[0].value, "the supplied modified")
     if up(arg) != "kwargs['modified']":
         fail(name, "the supplied modified is not kwargs['modified']")
-    left, op, right = one_compare(yes[1].test, name)
-    if not (up(left) == "new_modified" and up(right) == "old_modified"):
-        fail(name, "the supplied-modified test is not `new_modified <cmp> old_modified`")
-    out["supplied_cmp"] = op
+    out["supplied_cmp"] = oriented(yes[1].test, name, "new_modified", "old_modified")
     out["supplied_raises"] = up(yes[1].body[0].exc.func) if isinstance(yes[1].body[0].exc, ast.Call) else up(yes[1].body[0].exc)
     out["parse_precision"] = [prec_old, prec_new]
+    out["parse_constraint"] = constraints
     if not (len(no) == 3 and all(isinstance(s, ast.Assign) for s in no) and isinstance(no[0].value, ast.Call) and not no[0].value.args
             and up(no[0].targets[0]) == "new_modified" and isinstance(no[1].value, ast.Call) and up(no[1].value.func) == "_fudge_modified"
             and up(no[1].targets[0]) == "new_modified" and up(no[2].targets[0]) == "kwargs['modified']" and up(no[2].value) == "new_modified"):
@@ -317,6 +331,7 @@ Definition src_cfg : vsrc := {|
   s_unmod_test := %s;
   s_old_sources := %s;
   s_parse_precision := %s;
+  s_parse_constraint := %s;
   s_constraint_21 := %s; s_constraint_test := %s; s_constraint_else := %s;
   s_supplied_cmp := %s; s_supplied_raises := %s;
   s_fudge_flag := %s;
@@ -329,7 +344,7 @@ Definition src_cfg : vsrc := {|
 |}.
 """ % (d["f21_cmp"], d["f21_push"], d["f20_cmp"], d["f20_threshold"], d["f20_push"],
        d["i_check"], d["i_revoked"], d["i_copy"], d["i_unmod"], d["i_parse_old"], d["i_branch"], d["i_update"],
-       coq_strs(d["unmod_lists"]), coq_str(d["unmod_test"]), coq_strs(d["old_sources"]), coq_strs(d["parse_precision"]),
+       coq_strs(d["unmod_lists"]), coq_str(d["unmod_test"]), coq_strs(d["old_sources"]), coq_strs(d["parse_precision"]), coq_strs(d["parse_constraint"]),
        coq_str(d["constraint_21"]), coq_str(d["constraint_test"]), coq_str(d["constraint_else"]),
        d["supplied_cmp"], coq_str(d["supplied_raises"]), coq_str(d["fudge_flag"]), coq_str(d["clock"]), coq_str(d["none_filter"]),
        coq_str(d["sco_version"]), coq_str(d["sco_uuid_test"]), coq_strs(d["revoke_tests"]), coq_str(d["revoke_call"]),
